@@ -9,10 +9,10 @@ for p in sorted(glob.glob('/verif/seeded/*/meta.json')):
         for l in r.get('violation_lines', [])[:2]:
             k = l.split('(', 1)[1].split(':', 1)[0] if '(' in l else l
             keys.append(k.strip())
-    rows.append((m['id'], m['property'], m['what'], m['needs'], 'caught' if m.get('caught') else 'MISSED', checks, '; '.join(keys)[:160]))
+    rows.append((m['id'], m['property'], m['what'], m['needs'], ('caught' if m.get('caught') else 'MISSED') + (' (' + m['history'] + ')' if m.get('history') else ''), checks, '; '.join(keys)[:160]))
 with open('/verif/seeded/INDEX.md', 'w') as f:
     f.write('# Seeded changes\n\nEach directory holds `patch.diff` (apply with `git -C /repo apply`), `demo.py` (passes on the clean tree, fails with the change) and `meta.json` (what was run and observed).\n\n')
     f.write('| id | property | change | needs, to manifest | our quick check | result | failure keys (first two) |\n|---|---|---|---|---|---|---|\n')
     for r in rows:
         f.write('| %s | %s | %s | %s | %s | %s | %s |\n' % (r[0], r[1], r[2].replace('|', '/'), r[3].replace('|', '/'), r[5], r[4], r[6].replace('|', '/')))
-print(len(rows), 'seeded changes;', sum(1 for r in rows if r[4] == 'caught'), 'caught')
+print(len(rows), 'seeded changes;', sum(1 for r in rows if r[4].startswith('caught')), 'caught')
